@@ -1,12 +1,13 @@
 #!/bin/sh
-# tools/confirm_seed.sh <id> <crate> <demo-test-filter> [existing-test-filter]
-# confirms in the seed's scratch worktree: demo passes without the change, fails with it; existing tests still pass with it.
-ID=$1; CRATE=$2; DEMO=$3; EXIST=${4:-}
+# tools/confirm_seed.sh <id> <crate> <demo-test-filter> [extra cargo args]
+# In the seed's scratch worktree /tmp/wt-<id>: (1) demo alone passes on the unchanged code; (2) with the change applied the
+# whole --lib suite of the crate is run: the only failure must be the demo.
+ID=$1; CRATE=$2; DEMO=$3; shift 3
 WT=/tmp/wt-$ID
 cd $WT || exit 2
 export CARGO_TARGET_DIR=$WT/target CARGO_NET_OFFLINE=true
-git checkout -q -- . && git apply /tmp/seeds/$ID/demo.diff || { echo "demo.diff does not apply"; exit 2; }
-echo "== demo WITHOUT change"; cargo +1.96.0 test --offline -p $CRATE --lib $DEMO 2>&1 | grep -E "^test |test result|error" | head -8
+git checkout -q -- . && git clean -fdq -e target && git apply /tmp/seeds/$ID/demo.diff || { echo "demo.diff does not apply"; exit 2; }
+echo "== [$ID] demo WITHOUT change"; cargo +1.96.0 test --offline -p $CRATE "$@" $DEMO 2>&1 | grep -E "^test .*(ok|FAILED)|test result|^error" | head -8
 git apply /tmp/seeds/$ID/patch.diff || { echo "patch.diff does not apply"; exit 2; }
-echo "== demo WITH change"; cargo +1.96.0 test --offline -p $CRATE --lib $DEMO 2>&1 | grep -E "^test |test result|error" | head -8
-if [ -n "$EXIST" ]; then echo "== existing tests WITH change ($EXIST)"; cargo +1.96.0 test --offline -p $CRATE --lib $EXIST 2>&1 | grep -E "test result|FAILED|failed" | head -8; fi
+echo "== [$ID] whole suite of $CRATE WITH change + demo"; cargo +1.96.0 test --offline -p $CRATE "$@" 2>&1 | grep -E "^test .*FAILED|test result|^error|panicked" | head -12
+git checkout -q -- . ; git clean -fdq -e target
